@@ -182,7 +182,7 @@ def _zipname(p: bytes) -> typing.Optional[str]:
 RESERVED = "?#%&+;=:@\"'<>|~"
 SAFE_WORDS = ["alpha", "beta", "gamma", "delta", "notes", "paper", "index", "data", "Read Me",
               "report 2020", "x", "y2", "Zed", "item"]
-EXTS = [".txt", ".html", ".gif", ".jpg", ".png", ".pdf", ".mp3", ".xyz", "", ".c", ".css",
+EXTS = [".txt", ".html", ".gif", ".jpg", ".png", ".pdf", ".mp3", ".qqq", "", ".c", ".css",
         ".hqx", ".ps"]
 
 
